@@ -29,8 +29,8 @@ TRUSTED_EXTRA = ["C18 partial: the 'computed inside the same JIT computation' cl
 
 
 def cases(seed, tier):
-    n = 160 if tier == "quick" else 3000
-    return [{"seed": seed * 1_000_003 + 18001 + i, "what": ["argmax", "argmax", "segment", "discrete", "fused"][i % 5]} for i in range(n)]
+    n = 192 if tier == "quick" else 3600
+    return [{"seed": seed * 1_000_003 + 18001 + i, "what": ["argmax", "argmax", "segment", "discrete", "fused", "policy"][i % 6]} for i in range(n)]
 
 
 def ext(x):
@@ -103,6 +103,51 @@ def run_case(case):
             vs.append({"clause": "flattened position of the first unmasked element equal to the masked maximum (0 and the initial value if everything is masked), together with that maximum",
                        "detail": f"array {a.tolist()} axes {axes} mask {None if mask is None else mask.tolist()} jit={jit}: implementation idx {ixl} max {mxl} shape {list(ix.shape)}; model idx {o['idx']} max {o['max']} shape {o['shape']}", "key": "C18:argmax"})
         out["sample"] = {"shape": shape, "axes": axes, "mask": mk, "jit": jit, "idx": ixl[:6], "max": mxl[:6]}
+        return out
+    if what == "policy":
+        # the arg-max as the library itself calls it: `create_compute_conditional_continuation_policy` (entry_point.py) on a
+        # utility-and-feasibility function whose values are produced inside the same (jitted) computation; -inf utilities
+        # (log(0)) among the feasible choices and fully infeasible problems included
+        from lcm.entry_point import create_compute_conditional_continuation_policy, create_compute_conditional_continuation_value
+
+        nc = r.randint(1, 2)
+        shape = [r.randint(1, 4) for _ in range(nc)]
+        size = int(np.prod(shape))
+        kind = r.choice(["finite", "ninf", "ninf", "all_ninf", "none_feasible"])
+        vals = [float(r.randint(-4, 4)) / 2 for _ in range(size)]
+        feas = [r.random() < 0.6 for _ in range(size)]
+        if kind in ("ninf", "all_ninf"):
+            vals = [(-np.inf if (kind == "all_ninf" and feas[j]) or r.random() < 0.5 else v) for j, v in enumerate(vals)]
+        if kind == "none_feasible":
+            feas = [False] * size
+        A = jnp.asarray(np.array(vals).reshape(shape))
+        M = jnp.asarray(np.array(feas).reshape(shape))
+        names = [f"c{j}" for j in range(nc)]
+        scale, shift = r.choice([1.0, 2.0, 0.5]), float(r.randint(-2, 2))
+        ns = {"A": A, "M": M, "scale": scale, "shift": shift}
+        exec(f"def uf({', '.join(names)}, w):\n    idx = ({', '.join(names)},)\n    return A[idx] * scale + shift + 0.0 * w, M[idx]\n", ns)  # noqa: S102
+        grids = {n_: jnp.arange(k) for n_, k in zip(names, shape)}
+        out["sig"] = f"policy nc={nc} kind={kind} jit={jit}"
+        try:
+            pol = create_compute_conditional_continuation_policy(ns["uf"], names)
+            val = create_compute_conditional_continuation_value(ns["uf"], names)
+            if jit:
+                pol, val = jax.jit(pol), jax.jit(val)
+            ix, mx = pol(**grids, w=jnp.asarray(1.0))
+            vmax = val(**grids, w=jnp.asarray(1.0))
+        except Exception as e:  # noqa: BLE001
+            vs.append({"clause": "the policy function evaluates", "detail": f"{impl_site(e)}: {str(e)[:200]}", "key": "C18:eval"})
+            return out
+        u = [v * scale + shift for v in vals]
+        o = driver().call({"op": "argmax", "a": {"shape": shape, "data": [ext(x) for x in u]}, "axes": list(range(nc)),
+                           "mask": {"shape": shape, "data": [bool(x) for x in feas]}})
+        out["evals"] = 2
+        out["hist"][f"policy_kind={kind}"] = 1
+        got_ix, got_mx, got_v = int(np.asarray(ix)), ext(float(np.asarray(mx))), ext(float(np.asarray(vmax)))
+        if [got_ix] != o["idx"] or not _same_ext_lists([got_mx], o["max"]) or not _same_ext_lists([got_v], o["max"]):
+            vs.append({"clause": "flattened position of the first unmasked element equal to the masked maximum (0 and the initial value if everything is masked), together with that maximum",
+                       "detail": f"continuation policy over utilities {u} feasible {feas} shape {shape} jit={jit}: position {got_ix} maximum {got_mx} value function {got_v}; model position {o['idx']} maximum {o['max']}", "key": "C18:policy"})
+        out["sample"] = {"utilities": [ext(x) for x in u], "feasible": feas, "position": got_ix, "maximum": got_mx}
         return out
     if what == "segment":
         nd = r.randint(1, 3)
